@@ -10,6 +10,7 @@
 #
 # Copyright 2024 - Yan Georget
 ###############################################################################
+import numpy as np
 from numba import njit  # type: ignore
 from numpy.typing import NDArray
 
@@ -36,6 +37,7 @@ def mid_value_dom_heuristic(
     :param dom_idx: the index of the shared domain
     :return: the events
     """
+    shr_domain = shr_domains_stack[stacks_top[0], dom_idx]
     return value_dom_heuristic(
         params,
         shr_domains_stack,
@@ -43,5 +45,6 @@ def mid_value_dom_heuristic(
         dom_update_stack,
         stacks_top,
         dom_idx,
-        (shr_domains_stack[stacks_top[0], dom_idx, MIN] + shr_domains_stack[stacks_top[0], dom_idx, MAX]) // 2,
+        # the sum of two bounds may not fit 32 bits (numpy scalars do not promote when the JIT is disabled)
+        (np.int64(shr_domain[MIN]) + shr_domain[MAX]) // 2,
     )
